@@ -53,6 +53,24 @@ Fixpoint segs_ok (needle : str) (sr : bool) (ss : list seg) (rest : str) : bool 
       && segs_ok needle sr tl rest
   end.
 
+(* plain text in which no long-bracket opener starts *)
+Fixpoint plain_ok_lua (w rest : str) : bool :=
+  match w with
+  | [] => true
+  | c :: w' => negb (is_quote c) && negb (match match_lua (w ++ rest) true with Some _ => true | None => false end)
+               && plain_ok_lua w' rest
+  end.
+Fixpoint segs_ok_lua (ss : list seg) (rest : str) : bool :=
+  match ss with
+  | [] => true
+  | Plain w :: tl => plain_ok_lua w (render_segs tl ++ rest) && segs_ok_lua tl rest
+  | Str q b :: tl =>
+      body_ok q b
+      && negb (match b with [] => match render_segs tl ++ rest with c :: _ => N.eqb c (qchar q) | [] => false end | _ => false end)
+      && segs_ok_lua tl rest
+  end.
+
+
 Definition quote_free (s : str) : bool := forallb (fun c => negb (is_quote c)) s.
 
 (* ---- programs: pieces whose class is known by construction ---- *)
